@@ -364,7 +364,8 @@ class Soap11(XmlDocument):
                                out_body_doc, body_message_class.get_namespace())
 
             else:
-                out_object = ctx.out_object[0]
+                out_object = self._bare_response(body_message_class,
+                                                             ctx.out_object[0])
 
                 sub_ns = body_message_class.Attributes.sub_ns
                 if sub_ns is None:
